@@ -269,8 +269,10 @@ func hintsCase(c *Case, lean *LeanDriver) Verdict {
 		return v
 	}
 	v.NonTriv = nonTrivial(ref)
-	if _, q, err := leanInfo(c, lean); err == nil {
+	tie := false
+	if ans, q, err := leanInfo(c, lean, "ties"); err == nil {
 		v.Features = features(q)
+		tie = ans["ties"] == "1"
 	}
 	pst := NewMemStorage(c.Data())
 	ctx, cancel := bg()
@@ -309,7 +311,7 @@ func hintsCase(c *Case, lean *LeanDriver) Verdict {
 		ts := NewMemStorage(c.Data())
 		ts.TrimToHints = true
 		trimmed := execThanos(d, ts)
-		if df := Diff(trimmed, full); df != "" {
+		if df := Diff(trimmed, full); df != "" && !tie {
 			v.Other = fmt.Sprintf("hinted range insufficient (optimizers=%s): %s", o, df)
 			return v
 		}
